@@ -486,8 +486,9 @@ fn parse_qualified_rule(input: &mut StepParser, ss: &mut StyleSheetTransformer) 
                 return Ok(());
             };
             let mut invalid = match &*next {
-                Token::Ident(x) if x.as_bytes() == b"host" => None,
-                Token::Function(x) if x.as_bytes() == b"host" => Some(input.position()),
+                // (pseudo-class names are ASCII case-insensitive)
+                Token::Ident(x) if x.eq_ignore_ascii_case("host") => None,
+                Token::Function(x) if x.eq_ignore_ascii_case("host") => Some(input.position()),
                 _ => return Err(input.new_custom_error(())),
             };
             let next = loop {
